@@ -326,6 +326,53 @@ impl Node {
             });
             x(|x| x.dtors.push(snap));
         }
+        // fault: the destructor panics at its START; everything the value owns is then
+        // released while the thread is unwinding (what field drop glue does after a
+        // panicking `Drop::drop`), i.e. nested teardowns run with `thread::panicking()`
+        let early = x(|x| x.faults.panic_early_at.contains(&k));
+        if early && !std::thread::panicking() {
+            x(|x| {
+                x.fired_panics += 1;
+                x.panic_in_call = true;
+                x.any_panic = true;
+            });
+            report::F_PANIC.store(true, Relaxed);
+            st(St::f_dtor_panic_early, 1);
+            struct ReleaseOnUnwind<'a>(&'a Node, Id, u32);
+            impl Drop for ReleaseOnUnwind<'_> {
+                fn drop(&mut self) {
+                    let _ = har(|| self.0.release_all(self.1, self.2));
+                }
+            }
+            let _g = ReleaseOnUnwind(self, id, k);
+            std::panic::panic_any(Injected(k));
+        }
+        let pending = self.release_all(id, k);
+
+        let armed = x(|x| x.faults.panic_at.contains(&k));
+        if armed && pending.is_none() && !std::thread::panicking() {
+            x(|x| {
+                x.fired_panics += 1;
+                x.panic_in_call = true;
+                x.any_panic = true;
+            });
+            report::F_PANIC.store(true, Relaxed);
+            st(St::f_dtor_panic, 1);
+            std::panic::panic_any(Injected(k));
+        }
+        if let Some(p) = pending {
+            if !std::thread::panicking() {
+                resume_unwind(p);
+            }
+        }
+    }
+}
+
+impl Node {
+    /// Everything a dying value does with what it owns: observe and drop its stored
+    /// Weak handles, run the scripted and inline destructor-side calls, release its
+    /// stored strong handles one by one. Returns a panic caught on the way, if any.
+    fn release_all(&self, id: Id, k: u32) -> Option<Box<dyn std::any::Any + Send>> {
         let mut pending: Option<Box<dyn std::any::Any + Send>> = None;
 
         // Weak handles stored in the value: upgrade each (a dying peer must give
@@ -466,22 +513,7 @@ impl Node {
             }
         }
 
-        let armed = x(|x| x.faults.panic_at.contains(&k));
-        if armed && pending.is_none() && !std::thread::panicking() {
-            x(|x| {
-                x.fired_panics += 1;
-                x.panic_in_call = true;
-                x.any_panic = true;
-            });
-            report::F_PANIC.store(true, Relaxed);
-            st(St::f_dtor_panic, 1);
-            std::panic::panic_any(Injected(k));
-        }
-        if let Some(p) = pending {
-            if !std::thread::panicking() {
-                resume_unwind(p);
-            }
-        }
+        pending
     }
 }
 
@@ -1508,6 +1540,10 @@ fn after_call(panicked: bool) {
     }
 
     // C01 / C06: through every handle the program holds
+    let phys_all = m(|m| m.phys_all());
+    let nweak_all = m(|m| m.nweak_all());
+    let physf = |o: Id| -> u32 { *phys_all.get(&o).unwrap_or(&0) };
+    let nweakf = |o: Id, e: u32| -> u32 { *nweak_all.get(&(o, e)).unwrap_or(&0) };
     report::F_HARNESS_DEREF.store(true, Relaxed);
     W.with(|wc| {
         let wd = wc.borrow();
@@ -1516,7 +1552,7 @@ fn after_call(panicked: bool) {
             let (o, alive, phys, nweak, epoch) = m(|m| {
                 let o = m.ph[hid];
                 let ob = m.obj(o);
-                (o, ob.alive && ob.rc, m.phys(o), m.nweak(o, ob.epoch), ob.epoch)
+                (o, ob.alive && ob.rc, physf(o), nweakf(o, ob.epoch), ob.epoch)
             });
             if !alive {
                 report::harness_error(&format!("program handle {hid} points at dead object {o} without a violation having been raised"));
@@ -1539,8 +1575,8 @@ fn after_call(panicked: bool) {
                 soft("identity", "as_ptr-changed", &format!("as_ptr of a handle to object {o} differs from the address recorded when the allocation was created"));
             }
         }
-        for i in 0..handles.len() {
-            for j in i + 1..handles.len() {
+        for i in 0..handles.len().min(12) {
+            for j in i + 1..handles.len().min(12) {
                 let same = m(|m| m.ph[handles[i].0] == m.ph[handles[j].0]);
                 if Rc::ptr_eq(handles[i].1, handles[j].1) != same {
                     soft("identity", "ptr_eq", &format!("ptr_eq of handles {} and {} is {}", handles[i].0, handles[j].0, !same));
@@ -1555,7 +1591,7 @@ fn after_call(panicked: bool) {
             let (sc, wcnt) = weak_call(|| (wk.strong_count(), wk.weak_count()));
             cd = fnv(fnv(cd, sc as u64), wcnt as u64);
             if alive {
-                let (phys, nweak) = m(|m| (m.phys(t), m.nweak(t, e)));
+                let (phys, nweak) = (physf(t), nweakf(t, e));
                 if sc != phys as usize || wcnt != nweak as usize {
                     soft("weak-counts", "live-target", &format!("Weak to live object {t}: strong_count {sc} (expected {phys}), weak_count {wcnt} (expected {nweak})"));
                 }
@@ -1592,7 +1628,7 @@ fn after_call(panicked: bool) {
             if !seen.insert(o) {
                 continue;
             }
-            let (phys, known) = m(|m| (m.phys(o), m.objs.get(&o).map_or(false, |ob| ob.alive && ob.rc)));
+            let (phys, known) = (physf(o), m(|m| m.objs.get(&o).map_or(false, |ob| ob.alive && ob.rc)));
             if !known {
                 violation("premature-destruction", "reachable-value-corrupt", &format!("a value reachable from a held handle claims to be object {o}, which is not a live object"));
             }
